@@ -71,6 +71,17 @@ def run(res):
         nodes = sorted(K._next.keys())
         if not nodes:
             continue
+        # every state has a label set OF ITS OWN: the idiom the library itself uses, labels(s).add(x), on a second
+        # instance and on a clone of it, must label s and nobody else
+        for what, K2 in (('constructed structure', mk()), ('clone', mk().clone())):
+            for s in nodes:
+                K2.labels(s).add('zz_%s' % s)
+            wrong = [s for s in nodes if set(K2.labels(s)) != set(L.get(s, [])) | {'zz_%s' % s}]
+            if wrong:
+                res.violation('in a %s, labels(s).add(x) on each state in turn leaves state %r with %s: label sets are shared '
+                              'between states' % (what, wrong[0], sorted(K2.labels(wrong[0]))),
+                              {'S': S, 'S0': S0, 'R': rs, 'L': L, 'history': ['K = Kripke(S, S0, R, L)' + ('.clone()' if what == 'clone' else ''),
+                                                                              'for s in states: K.labels(s).add("zz_%s" % s)', 'K.labels(%r)' % wrong[0]]})
         # labels / next of states and of a non-state
         for s in nodes + [max(nodes) + 5]:
             a = attempt(lambda: 'OK ' + ' '.join(sorted(K.labels(s))))
